@@ -58,8 +58,14 @@ def main():
     ap.add_argument("--jobs", type=int, default=4)
     ap.add_argument("--parallel", type=int, default=4)
     ap.add_argument("--seed", type=int, default=1)
+    ap.add_argument("--out", help="results file name under mutants/ (default results.json)")
     a = ap.parse_args()
-    muts = json.load(open(os.path.join(HERE, "mutants", "mutants.json")))["mutants"]
+    muts = []
+    import glob
+    for f in sorted(glob.glob(os.path.join(HERE, "mutants", "*.json"))):
+        if os.path.basename(f) == "results.json":
+            continue
+        muts += json.load(open(f))["mutants"]
     work = []
     for m in muts:
         if a.mutant and m["name"] != a.mutant:
@@ -78,7 +84,7 @@ def main():
             if not r["caught"]:
                 print("   ", r["tail"].replace("\n", "\n    "))
             sys.stdout.flush()
-    path = os.path.join(HERE, "mutants", "results.json")
+    path = os.path.join(HERE, "mutants", "results.json" if not a.out else a.out)
     old = []
     if os.path.exists(path):
         old = json.load(open(path))
